@@ -99,7 +99,8 @@ func newRemainderExprNode() ExprNode { return &remainderExprNode{} }
 
 func (re *remainderExprNode) Run(ctx context.Context, currField string, tagExpr *TagExpr) interface{} {
 	v1, _ := toFloat64(re.rightOperand.Run(ctx, currField, tagExpr), true)
-	if v1 == 0 {
+	if v1 == 0 || int64(v1) == 0 {
+		// the remainder is taken on int64 values: a divisor between -1 and 1 is zero there
 		return math.NaN()
 	}
 	v0, _ := toFloat64(re.leftOperand.Run(ctx, currField, tagExpr), true)
